@@ -150,3 +150,176 @@ def stmt_from_dump(d, subs=None):
 def prog_from_dump(dump, subs=None):
     return {"types": [], "init": [stmt_from_dump(s, subs) for s in dump["init"]],
             "guard": cond_to_ast(dump["guard"], subs), "body": [stmt_from_dump(s, subs) for s in dump["body"]]}
+
+
+# ---- source-level end-to-end validator (SrcPipeline.check_pipeline_src) ---------------------
+def desugar(p):
+    """the parser's treatment of simultaneous assignment: temporaries _t<k>, then copies"""
+    k = [0]
+
+    def ds(b):
+        out = []
+        for s in b:
+            if s[0] == "simult":
+                tmps = []
+                for x, r in s[1]:
+                    t = f"_t{k[0]}"
+                    k[0] += 1
+                    tmps.append((x, t))
+                    out.append(("assign", t, r))
+                for x, t in tmps:
+                    out.append(("assign", x, P.det(P.var(t))))
+            elif s[0] == "if":
+                out.append(("if", [(c, ds(bb)) for c, bb in s[1]], ds(s[2]) if s[2] is not None else None))
+            else:
+                out.append(s)
+        return out
+    return {"types": p.get("types", []), "init": ds(p["init"]), "guard": p["guard"], "body": ds(p["body"])}
+
+
+def source_types(flat_types, src_vars):
+    """type claim for the source variables: union of Polar's types of a variable and of its
+    renamed intermediate versions _<var><k> (the source variable holds all of them in turn)"""
+    import re
+    nt = numeric_types(flat_types)
+    out = {}
+    for x in src_vars:
+        vals = set()
+        found = x in nt
+        if x in nt:
+            vals |= set(nt[x])
+        complete = True
+        for v, vs in nt.items():
+            if re.fullmatch(r"_" + re.escape(x) + r"\d+", v):
+                vals |= set(vs)
+        if found:
+            out[x] = sorted(vals)
+    return out
+
+
+def tenv_coq(tdict):
+    if not tdict:
+        return "([] : tenv)"
+    return P.lst([f'("{v}", {P.lst([P.q_coq(q) for q in vals])})' for v, vals in sorted(tdict.items())])
+
+
+SRC_HEADER = ("From Coq Require Import List String QArith Qcanon ZArith.\n"
+              "From Polar Require Import Qcx CRing ExpPoly ClosedForm Dist Syntax Sem Types Poly Pipeline Wp SrcWp SrcPipeline Search.\n"
+              "Import ListNotations.\nOpen Scope string_scope.\n"
+              "Definition cm0 : string -> list Qc -> nat -> Qc := fun _ _ _ => 0%Qc.\n")
+
+
+def eval_expr(e, env):
+    k = e[0]
+    if k == "const":
+        return e[1]
+    if k == "var":
+        return env[e[1]]
+    if k == "add":
+        return eval_expr(e[1], env) + eval_expr(e[2], env)
+    if k == "sub":
+        return eval_expr(e[1], env) - eval_expr(e[2], env)
+    if k == "mul":
+        return eval_expr(e[1], env) * eval_expr(e[2], env)
+    if k == "neg":
+        return -eval_expr(e[1], env)
+    if k == "pow":
+        return eval_expr(e[1], env) ** e[2]
+    raise ValueError(e)
+
+
+def expr_vars(e):
+    if e[0] == "var":
+        return {e[1]}
+    if e[0] in ("add", "sub", "mul"):
+        return expr_vars(e[1]) | expr_vars(e[2])
+    if e[0] in ("neg", "pow"):
+        return expr_vars(e[1])
+    return set()
+
+
+def infer_src_types(p, cap=24):
+    """untrusted cartesian fixed point over the (desugared) source program, conditions ignored;
+    the Coq validator check_types_src decides whether the result is sound"""
+    import itertools
+    assigns = []
+
+    def collect(b, init):
+        for s in b:
+            if s[0] == "assign":
+                assigns.append((s[1], s[2], init))
+            elif s[0] == "if":
+                for _, bb in s[1]:
+                    collect(bb, init)
+                if s[2]:
+                    collect(s[2], init)
+    collect(p["init"], True)
+    collect(p["body"], False)
+    allv = {x for x, _, _ in assigns}
+    T = {x: set() for x in allv}
+    dead = set()
+
+    def rhs_vals(r):
+        if r[0] == "draw":
+            d = r[1]
+            if d[0] == "bern":
+                return {Fraction(0), Fraction(1)}
+            if d[0] == "cat":
+                return {Fraction(i) for i in range(len(d[1]))}
+            if d[0] == "unif":
+                return {Fraction(i) for i in range(d[1], d[2] + 1)}
+            return None
+        vals = set()
+        for _, e in r[1]:
+            vs = sorted(expr_vars(e))
+            if any(v in dead or v not in T for v in vs):
+                return None
+            if any(not T[v] for v in vs):
+                continue
+            n = 1
+            for v in vs:
+                n *= len(T[v])
+            if n > 4000:
+                return None
+            for combo in itertools.product(*[sorted(T[v]) for v in vs]):
+                vals.add(eval_expr(e, dict(zip(vs, combo))))
+        return vals
+
+    # initial block: flow-sensitive (each assignment sees the value sets established so far)
+    L = {}
+    saveT, savedead = T, dead
+    for x, r, is_init in assigns:
+        if not is_init:
+            continue
+        T = L
+        dead = set(allv) - set(L)
+        vals = rhs_vals(r)
+        T, dead = saveT, savedead
+        if vals is None or len(vals) > cap or not vals:
+            L.pop(x, None)
+        else:
+            L[x] = set(vals)
+    for x in allv:
+        if x in L:
+            T[x] = set(L[x])
+    for x, r, is_init in assigns:
+        if is_init and x not in L:
+            dead.add(x)
+    for _ in range(60):
+        changed = False
+        for x, r, is_init in assigns:
+            if x in dead or is_init:
+                continue
+            vals = rhs_vals(r)
+            if vals is None or len(T[x] | vals) > cap:
+                dead.add(x)
+                changed = True
+                continue
+            if not vals <= T[x]:
+                T[x] |= vals
+                changed = True
+        if not changed:
+            break
+    else:
+        return {}
+    return {x: sorted(vs) for x, vs in T.items() if x not in dead and vs}
